@@ -381,3 +381,49 @@ func C17OneShotSlotReuse() {
 	}
 	sym.Reach("slot-reuse-done")
 }
+
+// C17ShutdownWhileTableBusy: the peer goes away at the very moment another goroutine is inside a table
+// operation (registering or removing a handler — every memory access of the package is a scheduling
+// point here, so the shutdown can arrive in the middle of the critical section): the handlers
+// registered before still get their closer exactly once and their queues closed.
+func C17ShutdownWhileTableBusy() {
+	sym.RacyScope("bus/net.")
+	s := newZZStream()
+	e := NewEndPoint(s)
+	const n = 2
+	var closers [n + 1]int32
+	queues := make([]chan *Message, n+1)
+	ids := make([]int, n+1)
+	for i := range queues {
+		queues[i] = make(chan *Message, 2)
+	}
+	mk := func(i int) {
+		ids[i] = e.MakeHandler(func(hdr *Header) (bool, bool) { return true, true }, queues[i], func(err error) { atomic.AddInt32(&closers[i], 1) })
+	}
+	for i := 0; i < n; i++ {
+		mk(i)
+	}
+	removing := sym.Bool("table-operation-is-a-removal")
+	done := make(chan bool, 1)
+	go func() {
+		if removing {
+			e.RemoveHandler(ids[0])
+		} else {
+			mk(n)
+		}
+		done <- true
+	}()
+	s.peerClose()
+	<-done
+	sym.Quiesce()
+	for i := 0; i < n; i++ {
+		sym.Assert(atomic.LoadInt32(&closers[i]) == 1, "busy-table/closer-exactly-once")
+		select {
+		case _, ok := <-queues[i]:
+			sym.Assert(!ok, "busy-table/queue-not-closed")
+		default:
+			sym.Fail("busy-table/queue-not-closed")
+		}
+	}
+	sym.Reach("busy-table-done")
+}
